@@ -100,17 +100,20 @@ RECURSIVE EnumNum(_, _)
 EnumNum(values, i) == IF values[i].has THEN values[i].v
                       ELSE IF i = 1 THEN 0 ELSE EnumNum(values, i - 1) + 1
 
-(* optok: a union member and a declared exception of a method are optional by the language whatever is written *)
-FieldDesc(path, fields, i, optok) ==
+(* requiredness: what is written; a union member and a declared exception of a method are optional by the       *)
+(* language whatever is written, and "optional" is ignored in an argument list - both readings are handed out    *)
+Reqs(req, role) == {req} \cup (IF role \in {"member", "throw"} THEN {"optional"} ELSE {})
+                         \cup (IF role = "arg" /\ req = "optional" THEN {"default"} ELSE {})
+FieldDesc(path, fields, i, role) ==
   LET f == fields[i] IN
-  [fp |-> path, name |-> f.name, id |-> FieldId(fields, i), req |-> f.req, optok |-> optok,
+  [fp |-> path, name |-> f.name, id |-> FieldId(fields, i), reqs |-> Reqs(f.req, role),
    type |-> TypeDesc(path, f.type),
    default |-> IF f.hasdef THEN ValDesc(f.def) ELSE None,
    ann |-> AnnDesc(f.ann), comments |-> CmtDesc(f.cmt, TRUE)]
-FieldsDesc(path, fields, optok) == [i \in DOMAIN fields |-> FieldDesc(path, fields, i, optok)]
+FieldsDesc(path, fields, role) == [i \in DOMAIN fields |-> FieldDesc(path, fields, i, role)]
 
 StructDesc(path, s, cat) ==
-  [fp |-> path, name |-> s.name, fields |-> FieldsDesc(path, s.fields, cat = "union"),
+  [fp |-> path, name |-> s.name, fields |-> FieldsDesc(path, s.fields, IF cat = "union" THEN "member" ELSE "field"),
    ann |-> AnnDesc(s.ann), comments |-> CmtDesc(s.cmt, FALSE)]
 
 EnumDesc(path, e) ==
@@ -130,7 +133,7 @@ ConstDesc(path, c) ==
 
 MethodDesc(path, m) ==
   [fp |-> path, name |-> m.name, oneway |-> m.oneway, ret |-> TypeDesc(path, m.ret),
-   args |-> FieldsDesc(path, m.args, FALSE), throws |-> FieldsDesc(path, m.throws, TRUE),
+   args |-> FieldsDesc(path, m.args, "arg"), throws |-> FieldsDesc(path, m.throws, "throw"),
    ann |-> AnnDesc(m.ann), comments |-> CmtDesc(m.cmt, FALSE)]
 
 ServiceDesc(path, s) ==
@@ -265,10 +268,10 @@ DecVal(w) == CASE w[1] = "list"   -> [t |-> "list", items |-> IF Has(w, 6) THEN 
                [] w[1] = "id"     -> [t |-> "id", a |-> w[8]]
 
 (* comments are one string in the descriptor; the model keeps the structured form, an atom for the wire *)
-EncField(f) == St({<<1, f.fp>>, <<2, f.name>>, <<3, EncType(f.type)>>, <<4, <<f.req, f.optok>> >>, <<5, f.id>>,
+EncField(f) == St({<<1, f.fp>>, <<2, f.name>>, <<3, EncType(f.type)>>, <<4, f.reqs>>, <<5, f.id>>,
                    <<7, EncAnn(f.ann)>>, <<8, f.comments>>}
                   \cup Opt(6, f.default # None, IF f.default # None THEN EncVal(f.default) ELSE None))
-DecField(w) == [fp |-> w[1], name |-> w[2], id |-> w[5], req |-> w[4][1], optok |-> w[4][2], type |-> DecType(w[3]),
+DecField(w) == [fp |-> w[1], name |-> w[2], id |-> w[5], reqs |-> w[4], type |-> DecType(w[3]),
                 default |-> IF Has(w, 6) THEN DecVal(w[6]) ELSE None, ann |-> DecAnn(w[7]), comments |-> w[8]]
 EncFields(fs) == [i \in DOMAIN fs |-> EncField(fs[i])]
 DecFields(ws) == [i \in DOMAIN ws |-> DecField(ws[i])]
@@ -330,7 +333,11 @@ Functional(S, key(_)) == \A x, y \in S : key(x) = key(y) => x = y
 -----------------------------------------------------------------------------
 (* Part 4: the registry machine                                            *)
 
-Progs == JsonDeserialize("progs.json")     \* the program universe of this run (sequence of programs)
+(* the program universe of this run (sequence of programs).  TLC note: a definition whose body is a Java-overridden *)
+(* operator is evaluated again at every use (the file would be parsed each time); the value is therefore parked  *)
+(* in a TLC register by an ASSUME (evaluated once, by the main thread, visible to all workers).                  *)
+ASSUME TLCSet(1, JsonDeserialize("progs.json"))
+Progs == TLCGet(1)
 
 VARIABLES p,        \* the program the behaviour is about (0 = not chosen yet)
           order,    \* files registered so far, in registration order (layer A: only its range matters)
@@ -352,30 +359,36 @@ Pick(k) == /\ p = 0 /\ p' = k
 (* registerGoTypes walks Structs ++ Unions ++ Exceptions, then Enums, then Typedefs with running offsets;  *)
 (* a later entry with the same Go type replaces the go2d entry.  GetFileDescriptor fills Includes alias by *)
 (* alias, a later include with the same alias replaces the earlier one.                                    *)
+(* TLC note: LET definitions and operator arguments are re-evaluated at every use and [x \in S |-> e] is applied   *)
+(* lazily, so intermediate results are bound with \E x \in {e} and sequences are materialised with Mat.          *)
+Mat(s) == s \o <<>>
 L(f, kind) == [i \in DOMAIN Defs(P[f], kind) |-> <<f, kind, i>>]
 StructList(f) == L(f, "struct") \o L(f, "union") \o L(f, "exception")
 RegList(f)    == StructList(f) \o L(f, "enum") \o L(f, "typedef")
 TplList(f)    == L(f, "struct") \o L(f, "union") \o L(f, "exception") \o L(f, "enum") \o L(f, "typedef")
-GoTypes(f)    == [k \in DOMAIN TplList(f) |-> GTy(P, TplList(f)[k])]
+GoTypesOf(tl) == Mat([k \in DOMAIN tl |-> GTy(P, tl[k])])
+KeysOf(rl, gt) == Mat([k \in DOMAIN rl |-> <<Cls(rl[k][2]), gt[k]>>])
 
 Register(f) ==
   /\ p > 0 /\ f \in 1..NFiles /\ f \notin Reg
   /\ order' = Append(order, f)
-  /\ LET rl  == RegList(f)
-         tl  == TplList(f)
-         n   == Len(rl)
-         gt  == [k \in 1..n |-> GTy(P, tl[k])]            \* the go_types slice
-         key == [k \in 1..n |-> <<Cls(rl[k][2]), gt[k]>>]  \* table and Go type the k-th descriptor is filed under
-         last(k) == \A j \in (k + 1)..n : key[j] # key[k]
-     IN  /\ b_d2go' = b_d2go \cup {<<rl[k], gt[k]>> : k \in 1..n}
-         /\ b_go2d' = {x \in b_go2d : \A k \in 1..n : key[k] # <<x[1], x[2]>>}
-                         \cup {<<key[k][1], key[k][2], rl[k]>> : k \in {j \in 1..n : last(j)}}
-  /\ LET inc == P[f].incs
-         lastA(k) == \A j \in (k + 1)..Len(inc) : inc[j].alias # inc[k].alias
-     IN  b_inc' = b_inc \cup {<<f, inc[k].alias, inc[k].file>> : k \in {j \in DOMAIN inc : lastA(j)}}
+  /\ \E rl \in {RegList(f)} : \E tl \in {TplList(f)} : \E gt \in {GoTypesOf(tl)} :   \* gt: the go_types slice
+       \E key \in {KeysOf(rl, gt)} :              \* table and Go type the k-th descriptor is filed under
+         /\ b_d2go' = b_d2go \cup {<<rl[k], gt[k]>> : k \in DOMAIN rl}
+         /\ b_go2d' = {x \in b_go2d : \A k \in DOMAIN rl : key[k] # <<x[1], x[2]>>}
+                         \cup {<<key[k][1], key[k][2], rl[k]>> :
+                                 k \in {j \in DOMAIN rl : \A i \in (j + 1)..Len(rl) : key[i] # key[j]}}
+  /\ \E inc \in {P[f].incs} :
+       b_inc' = b_inc \cup {<<f, inc[k].alias, inc[k].file>> :
+                               k \in {j \in DOMAIN inc : \A i \in (j + 1)..Len(inc) : inc[i].alias # inc[j].alias}}
   /\ UNCHANGED p
 
-Next == (p = 0 /\ \E k \in 1..Len(Progs) : Pick(k)) \/ (p > 0 /\ \E f \in 1..NFiles : Register(f))
+(* (growth beyond the listed property) the same IDL generated into two Go packages registers the same file twice: *)
+(* registering an identical descriptor again changes nothing and is not an error                                  *)
+ReRegister(f) == p > 0 /\ f \in Reg /\ UNCHANGED vars
+
+Next == \/ p = 0 /\ \E k \in 1..Len(Progs) : Pick(k)
+        \/ p > 0 /\ \E f \in 1..NFiles : Register(f) \/ ReRegister(f)
 Spec == Init /\ [][Next]_vars
 
 (* layer B's answer to fd(f).Get<Kind>Descriptor("pre.name") *)
@@ -391,23 +404,29 @@ BGet(f, kind, pre, name) ==
 TypeOK == /\ p \in 0..Len(Progs)
           /\ p > 0 => Reg \subseteq 1..NFiles /\ Len(order) = Cardinality(Reg)
 
+(* The answers of layer A depend on the set of registered files only: one registration order per set suffices. *)
+Canonical == \A i \in 1..(Len(order) - 1) : order[i] < order[i + 1]
+RegDefs == UNION {DefIds(P, f) : f \in Reg}
+TyTable(defs) == {<<d, Cls(d[2]), GTy(P, d)>> : d \in defs}
+
 (* each Go type maps to the descriptor of its own definition and back *)
 GoTypeOwn ==
-  p > 0 => \A f \in Reg : \A d \in DefIds(P, f) :
-             /\ d \in ByGoSet(P, Reg, Cls(d[2]), GTy(P, d))
-             /\ d[2] # "typedef" => ByGoSet(P, Reg, Cls(d[2]), GTy(P, d)) = {d}
-             /\ \A r \in ByGoSet(P, Reg, Cls(d[2]), GTy(P, d)) : GTy(P, r) = GTy(P, d)
+  (p > 0 /\ Canonical) =>
+     \A tt \in {TyTable(RegDefs)} : \A x \in tt :
+        \E S \in {{y[1] : y \in {z \in tt : z[2] = x[2] /\ z[3] = x[3]}}} :
+           /\ S = ByGoSet(P, Reg, x[2], x[3])               \* the allowed answers for this Go type
+           /\ x[1] \in S                                    \* ... contain the definition itself
+           /\ x[1][2] # "typedef" => S = {x[1]}             \* ... and nothing else unless it is an alias
 BGoTypes ==
-  p > 0 => /\ \A x \in b_d2go : x[2] = GTy(P, x[1])
-           /\ \A x \in b_go2d : x[3] \in ByGoSet(P, Reg, x[1], x[2])
-           /\ \A f \in Reg : \A d \in DefIds(P, f) :
-                 /\ \E x \in b_d2go : x[1] = d
-                 /\ \E x \in b_go2d : x[1] = Cls(d[2]) /\ x[2] = GTy(P, d)
+  p > 0 => \A tt \in {TyTable(RegDefs)} :
+           /\ b_d2go = {<<x[1], x[3]>> : x \in tt}
+           /\ \A x \in b_go2d : <<x[3], x[1], x[2]>> \in tt
+           /\ {<<x[1], x[2]>> : x \in b_go2d} = {<<x[2], x[3]>> : x \in tt}
 
 (* a lookup through an include alias reaches the included file's entry - as soon as that file is registered, *)
 (* and not before; a local lookup reaches the file's own entry                                              *)
 AliasReach ==
-  p > 0 => \A f \in Reg :
+  (p > 0 /\ Canonical) => \A f \in Reg :
      /\ \A kind \in Kinds : \A i \in DOMAIN Defs(P[f], kind) :
            Get(P, Reg, f, kind, "", Defs(P[f], kind)[i].name).f = f
      /\ \A k \in DOMAIN P[f].incs :
